@@ -68,14 +68,21 @@ def entry_removed_matcher(repo: Repo, table: str):
         ("Dict", "Set", "List", "Tuple")
     )
 
+    bcache: Dict[int, Dict[str, List[str]]] = {}
+
     def m(fi: FuncInfo, g: GStmt, x: str) -> bool:
         uses = aux.table_uses(repo, fi)
-        bound: Dict[str, List[str]] = {}
-        for u in uses:
-            if u.bound and u.method in ("get", "get_or_insert"):
-                bound.setdefault(u.bound, []).extend(u.tables)
+        if id(fi.node) in bcache:
+            bound = bcache[id(fi.node)]
+            changed = False
+        else:
+            bound = {}
+            for u in uses:
+                if u.bound and u.method in ("get", "get_or_insert"):
+                    bound.setdefault(u.bound, []).extend(u.tables)
+            bcache[id(fi.node)] = bound
+            changed = True
         # nested: blocks = table.get(func_uuid)
-        changed = True
         while changed:
             changed = False
             for n in walk_no_nested(fi.node):
